@@ -3,6 +3,7 @@ import datetime
 import decimal
 import inspect
 import math
+import os
 
 import z3
 
@@ -13,16 +14,18 @@ from vf.ob import Ob
 from props.common import *  # noqa
 from xlcalculator.xlfunctions import math as XM
 
-EXPLANATION = ('(a) KT: the source of _round / ROUND / ROUNDUP / ROUNDDOWN / INT / TRUNC / EVEN / FLOOR / MOD is interpreted symbolically with the number as a '
+EXPLANATION = ('(a) KT: the source of _round / _multiple / ROUND / ROUNDUP / ROUNDDOWN / INT / TRUNC / EVEN / FLOOR / CEILING / MOD is interpreted symbolically with the number as a '
                'z3 real (decimal value) and the digit count as a z3 integer; one query per function: the result equals Excel\'s rounding direction for EVERY real '
-               'number in the range and every digit count -10..10. (b) XH: every function of the statement is executed by CrossHair with the C library '
+               'number in the range and every digit count -10..10 (the decimal context precision is modelled, so an InvalidOperation is a reachable outcome); TRUNC\'s float arithmetic is additionally '
+               'translated bit-precisely (QF_FP, IEEE-754 doubles) and z3 searches a decimal that is not its own truncation. (b) XH: every function of the statement is executed by CrossHair with the C library '
                '(math / numpy) replaced by contract stubs that raise / return NaN / return infinity exactly where the documented domain ends and return an '
                'arbitrary finite value otherwise; z3 decides that the result is a finite number or an Excel error for ALL arguments, and that the '
                'library is called with the arguments the statement prescribes (ATAN2(x,y) = atan2(y,x), LOG(n,b) = log(n, b), ...).')
-ASSUMPTIONS = ['KT: numbers are exact decimal reals (Decimal(str(x)) is the shortest-repr decimal of x; binary rounding of floats is not modelled); decimal rounding modes by their definition',
+ASSUMPTIONS = ['KT: numbers are exact decimal reals (Decimal(str(x)) is the shortest-repr decimal of x; binary rounding of floats is modelled only in the QF_FP obligation); decimal rounding modes by their definition; '
+               'Decimal / Decimal is exact (the 28-digit rounding of a non-terminating quotient is outside the model)',
                'XH/P3: math.log/sqrt/factorial and numpy arccos/arcsin/arccosh/log10/exp/cosh/... replaced by contract stubs (documented domains, NaN/inf where numpy returns them, '
                'an arbitrary finite real otherwise); replay uses the real libraries',
-               'not applicable: agreement with correctly rounded IEEE-754 values to a few ulp (libm / numpy C code); CEILING/FLOOR/TRUNC on fractional binary floats']
+               'not applicable: agreement with correctly rounded IEEE-754 values to a few ulp (libm / numpy C code)']
 TRUSTED = ['kt/kt.py, kt/models_math.py (Decimal, round, localcontext, math.trunc/ceil/floor models)', 'library contract table in props/c16.py']
 
 BIG = 10 ** 15
@@ -81,6 +84,174 @@ def leaf_n(l, n):
         if K.check(s) == z3.unsat:
             return k
     return None
+
+
+# ---------------------------------------------------------------------------------------------------------------
+# Bit-precise (QF_FP) obligations: where a rounding function computes on binary floats (x * 10**n ...), the exact-real model of
+# the kernel translator cannot see representation error.  The function's source is translated once more, with `number` an
+# IEEE-754 double, and z3 searches a decimal k / 10^n (k an integer) whose truncation to n digits is not itself.
+class NotAFloatKernel(Exception):
+    pass
+
+
+def fp_kernel(fn, n):
+    """Translate fn(number, num_digits=n) into a z3 Float64 term of `number` (straight-line subset; concrete num_digits)."""
+    import ast
+    import textwrap
+    F64, RNE, RTZ = z3.Float64(), z3.RNE(), z3.RTZ()
+    x = z3.FP('number', F64)
+    fdef = ast.parse(textwrap.dedent(inspect.getsource(fn))).body[0]
+    params = [a.arg for a in fdef.args.args]
+    env = {params[0]: x, params[1]: n}
+    g = fn.__globals__
+
+    def lift(v):
+        return v if z3.is_fp(v) else z3.FPVal(float(v), F64)
+
+    def ev(e):
+        if isinstance(e, ast.Constant):
+            return e.value
+        if isinstance(e, ast.Name):
+            if e.id in env:
+                return env[e.id]
+            raise K.Unsupported('name ' + e.id)
+        if isinstance(e, ast.BinOp):
+            a, b = ev(e.left), ev(e.right)
+            if not (z3.is_fp(a) or z3.is_fp(b)):
+                return {ast.Mult: lambda: a * b, ast.Div: lambda: a / b, ast.Add: lambda: a + b, ast.Sub: lambda: a - b, ast.Pow: lambda: a ** b}[type(e.op)]()
+            a, b = lift(a), lift(b)
+            if isinstance(e.op, ast.Mult):
+                return z3.fpMul(RNE, a, b)
+            if isinstance(e.op, ast.Div):
+                return z3.fpDiv(RNE, a, b)
+            if isinstance(e.op, ast.Add):
+                return z3.fpAdd(RNE, a, b)
+            if isinstance(e.op, ast.Sub):
+                return z3.fpSub(RNE, a, b)
+            raise K.Unsupported('float operator ' + type(e.op).__name__)
+        if isinstance(e, ast.UnaryOp) and isinstance(e.op, ast.USub):
+            v = ev(e.operand)
+            return z3.fpNeg(v) if z3.is_fp(v) else -v
+        if isinstance(e, ast.Compare) and len(e.ops) == 1:
+            a, b = ev(e.left), ev(e.comparators[0])
+            if z3.is_fp(a) or z3.is_fp(b):
+                raise K.Unsupported('branch on the float argument')
+            return {ast.Eq: a == b, ast.NotEq: a != b, ast.Lt: a < b, ast.LtE: a <= b, ast.Gt: a > b, ast.GtE: a >= b}[type(e.ops[0])]
+        if isinstance(e, ast.Call):
+            fname = ast.unparse(e.func)
+            args = []
+            for a_ in e.args:
+                try:
+                    args.append(ev(a_))
+                except K.Unsupported:
+                    args.append(None)             # an argument that is not arithmetic (a constant of another module ...)
+            if fname in ('math.trunc', 'int') and len(args) == 1:
+                return z3.fpRoundToIntegral(RTZ, args[0]) if z3.is_fp(args[0]) else int(args[0])
+            if fname == 'float' and len(args) == 1:
+                return args[0]
+            target = g.get(fname.split('.')[0])
+            if any(z3.is_fp(a) for a in args):
+                raise NotAFloatKernel(fname)          # the float is handed on (e.g. to the Decimal-based _round): no binary arithmetic here
+            raise K.Unsupported('call ' + fname)
+        raise K.Unsupported('expression ' + type(e).__name__)
+
+    def run(stmts):
+        for st in stmts:
+            if isinstance(st, ast.Expr) and isinstance(st.value, ast.Constant):
+                continue
+            if isinstance(st, ast.If):
+                r = run(st.body if ev(st.test) else st.orelse)
+                if r is not None:
+                    return r
+            elif isinstance(st, ast.Assign) and len(st.targets) == 1 and isinstance(st.targets[0], ast.Name):
+                env[st.targets[0].id] = ev(st.value)
+            elif isinstance(st, ast.Return):
+                return ev(st.value)
+            else:
+                raise K.Unsupported('statement ' + type(st).__name__)
+        return None
+    out = run(fdef.body)
+    if out is None or not z3.is_fp(out):
+        raise K.Unsupported('no float result')
+    return x, out
+
+
+def fp_trunc_ob(nmax, timeout):
+    import time
+    import traceback
+    name = 'c16.TRUNC[decimals with n places are their own truncation, IEEE doubles]'
+
+    def native_ok(k, n):
+        x = k / 10 ** n
+        got = nat(XM.TRUNC, x, n)
+        return got == ('num', round(x, 9)), f'TRUNC({x!r}, {n}) = {got}, expected {x!r} (it has only {n} decimals)'
+
+    def run(known=(), replay=None):
+        t0 = time.perf_counter()
+        res = {'name': name, 'kind': 'kt', 'family': 'c16.rounding', 'bounds': BOUNDS}
+        if replay is not None:
+            a = replay[0] if isinstance(replay, tuple) else replay
+            ok, detail = native_ok(a['k'], a['n'])
+            return {'ok': ok, 'detail': detail, 'case': f'TRUNC({a["k"]}/10^{a["n"]}, {a["n"]})'}
+        queries, stime = 0, 0.0
+        try:
+            f = inspect.unwrap(XM.TRUNC)
+            F64 = z3.Float64()
+            decided = []
+            undecided = []
+            for n in list(range(2, nmax + 1)) + [1]:
+                try:
+                    x, out = fp_kernel(f, n)
+                except NotAFloatKernel as e:
+                    decided.append(f'n={n}: no binary float arithmetic (argument handed to {e})')
+                    continue
+                k = z3.FP('k', F64)
+                s = z3.Solver()
+                s.set('timeout', int(timeout * 1000))
+                s.add(z3.fpRoundToIntegral(z3.RNE(), k) == k, z3.fpGEQ(k, z3.FPVal(-1e9, F64)), z3.fpLEQ(k, z3.FPVal(1e9, F64)))
+                s.add(x == z3.fpDiv(z3.RNE(), k, z3.FPVal(float(10 ** n), F64)))          # the double denoted by the decimal k / 10^n
+                s.add(z3.Not(z3.fpEQ(out, x)))
+                q0 = time.perf_counter()
+                r = s.check()
+                queries += 1
+                stime += time.perf_counter() - q0
+                if r == z3.sat:
+                    kv = s.model()[k]
+                    kk = int(float(z3.simplify(z3.fpToReal(kv)).as_fraction()))
+                    ok, detail = native_ok(kk, n)
+                    res.update(cex=repr(({'k': kk, 'n': n},)), case=f'TRUNC({kk}/10^{n}, {n})', replay=detail)
+                    if not ok:
+                        res.update(status='VIOLATED', reproduced=True, detail=detail)
+                    else:
+                        res.update(status='SPURIOUS', reproduced=False, detail='solver model does not reproduce natively: ' + detail)
+                    break
+                if r != z3.unsat:
+                    undecided.append(f'n={n}: solver answered {r}')
+                    continue
+                decided.append(f'n={n}: unsat')
+            else:
+                if undecided:
+                    res.update(status='INCONCLUSIVE', detail='; '.join(undecided + decided))
+                else:
+                    res.update(status='CONFIRMED', detail='; '.join(decided))
+        except K.Unsupported as e:
+            res.update(status='INCONCLUSIVE', detail=f'float-kernel translator: unsupported construct: {e}')
+        except Exception as e:
+            res.update(status='HARNESS_ERROR', detail=f'{type(e).__name__}: {e}\n' + traceback.format_exc()[-1200:])
+        # native witnesses as for every obligation
+        if res.get('status') == 'CONFIRMED':
+            for kk, n in ((125, 2), (5, 1), (-7, 1), (123456, 3)):
+                ok, detail = native_ok(kk, n)
+                if not ok:
+                    res.update(status='VIOLATED', reproduced=True, detail='native witness fails: ' + detail, cex=repr(({'k': kk, 'n': n},)), replay=detail)
+                    break
+            res['witness_ok'] = 4
+        res.update(paths=nmax, solver_queries=queries, solver_time_s=round(stime, 3), wall_s=round(time.perf_counter() - t0, 3), functions=['xlcalculator.xlfunctions.math.TRUNC'],
+                   stubs=['z3 Float64 (IEEE-754 binary64, round-nearest-even) for * / + -, roundToIntegral(RTZ) for math.trunc'])
+        return res
+    BOUNDS = (f'TRUNC(x, n) for n in 1..{nmax} and every x that is the double nearest to a decimal k / 10^n, k any integer in -10^9..10^9: the result is x itself; the straight-line float '
+              'arithmetic of the function is encoded bit-precisely (QF_FP); where the function hands its argument to the Decimal-based kernel there is nothing to encode and c16.TRUNC (exact decimal model) decides')
+    return Ob(name, kind='kt', run=run, family='c16.rounding', bounds=BOUNDS, timeout=timeout, cost=20)
 
 
 def kt_obs(tier):
@@ -161,7 +332,10 @@ def kt_obs(tier):
             sc = z3.RealVal(10 ** k) if k >= 0 else z3.RealVal(1) / z3.RealVal(10 ** (-k))
             y = q * sc
             Tt = K.to_real(l.value) * sc
-            return z3.Not(z3.And(z3.IsInt(Tt), z3.If(y >= 0, z3.And(Tt <= y, y < Tt + 1), z3.And(Tt >= y, y > Tt - 1))))
+            charac = z3.And(z3.IsInt(Tt), z3.If(y >= 0, z3.And(Tt <= y, y < Tt + 1), z3.And(Tt >= y, y > Tt - 1)))
+            # two equivalent statements of "is the truncation": the solver may refute whichever matches the shape of the code
+            # (an arithmetic kernel -> the characterisation; the Decimal kernel -> the same term as the reference)
+            return z3.And(z3.Not(charac), K.to_real(l.value if not isinstance(l.value, MM.MDecimal) else l.value.real) != ref_round(q, k, 'ROUNDDOWN'))
 
         def replay(a):
             x = frac(a['q'])
@@ -171,6 +345,7 @@ def kt_obs(tier):
         # samples: only values whose binary products are exact (halves, integers), the fractional-float case is outside the claim
         smp = [{'q': s, 'n': k} for s in ((5, 2), (-5, 2), (0, 1), (999999, 1), (-7, 1), (12345, 1)) for k in (0, 1, -1, -3)]
         return dict(encode=encode, bad=bad, replay=replay, norm=norm, native=lambda a: nat(XM.TRUNC, frac(a['q']), a['n']), samples=smp, show=lambda a: f'TRUNC({frac(a["q"])}, {a["n"]})')
+    obs.append(fp_trunc_ob(6 if tier == 'thorough' else 4, 60))
     obs.append(kt_ob('c16.TRUNC', sp_trunc, family='c16.rounding',
                      bounds='TRUNC(q, n): every real q, n in -10..10: toward zero at n digits, over exact real arithmetic (the binary products of fractional floats are outside the claim)', cost=30, timeout=300))
 
@@ -266,6 +441,49 @@ def kt_obs(tier):
         obs.append(kt_ob(f'c16.CEILING[significance {scon}]', sp_ceiling(scon), family='c16.rounding',
                          bounds=f'CEILING(v, {scon}): every integer v in -10^9..10^9: the multiple of the significance at or above v/s in the direction of the significance (s * ceil(v/s)); '
                                 '#NUM! for v > 0 > s; 0 for s = 0', cost=5, timeout=200))
+
+    def sp_multiple(kind, scon):
+        """CEILING / FLOOR of a decimal number to a decimal (also fractional) significance: the multiple of the significance, exactly."""
+        from fractions import Fraction
+        sq = Fraction(str(scon))
+
+        def spec():
+            f = inspect.unwrap(getattr(XM, kind))
+            sv = z3.RealVal(str(sq))
+
+            def encode():
+                leaves, it = K.explore(f, [q, float(scon)], [q >= -10 ** 6, q <= 10 ** 6], MM.MATH_MODELS)
+                return leaves, it, {'q': q}
+
+            def bad(l):
+                dom_err = z3.And(z3.BoolVal(sq < 0), q > 0)
+                if l.kind == 'raise':
+                    return True if l.value != 'NumExcelError' else z3.Not(dom_err)
+                quo = q / sv
+                mult = -z3.ToReal(z3.ToInt(-quo)) if kind == 'CEILING' else z3.ToReal(z3.ToInt(quo))
+                return z3.Or(dom_err, K.to_real(l.value if not isinstance(l.value, MM.MDecimal) else l.value.real) != mult * sv)
+
+            def py_ref(x):
+                if sq < 0 < x:
+                    return ('raise', 'NumExcelError')
+                d = Fraction(decimal.Decimal(str(float(x)))) / sq
+                m = math.ceil(d) if kind == 'CEILING' else math.floor(d)
+                return ('num', round(float(m * sq), 9))
+
+            def replay(a):
+                x = frac(a['q'])
+                got, exp = nat(getattr(XM, kind), x, float(scon)), py_ref(x)
+                return got == exp, f'{kind}({x!r}, {scon}) = {got}, decimal reference {exp}'
+            smp = [{'q': s_} for s_ in ((3, 10), (7, 10), (12, 5), (115, 100), (-3, 10), (-7, 10), (67, 10), (1, 4), (0, 1), (158, 100), (234, 1000), (5, 2), (-5, 2))]
+            return dict(encode=encode, bad=bad, replay=replay, norm=norm, native=lambda a: nat(getattr(XM, kind), frac(a['q']), float(scon)), samples=smp,
+                        show=lambda a: f'{kind}({frac(a["q"])}, {scon})', models=['kt/models_math.py: Decimal(str(float(x))), Decimal / Decimal, to_integral_value, Decimal * Decimal, float'])
+        return spec
+    for kind in ('CEILING', 'FLOOR'):
+        for scon in (0.1, 0.05, 0.25, 2.5, 0.2, -0.1, -2.5):
+            direction = 'at or above' if kind == 'CEILING' else 'at or below'
+            obs.append(kt_ob(f'c16.{kind}[decimal number, significance {scon}]', sp_multiple(kind, scon), family='c16.rounding',
+                             bounds=f'{kind}(q, {scon}): every real q in -10^6..10^6 (exact decimal value): the multiple of the significance {direction} q/s (s * {"ceil" if kind == "CEILING" else "floor"}(q/s)), '
+                                    'exactly; #NUM! for q > 0 > s; doubles such as 0.3, 0.7, 2.4, 1.15 replayed natively against the decimal reference', cost=5, timeout=200))
 
     def sp_mod(bcon):
         def spec():
